@@ -194,7 +194,8 @@ pub fn build_resp(ctx: &mut Ctx, method: &str, s: &RespSpec) -> RespPlan {
             }
         }
         RF::Close => {
-            let b = body_bytes(seed, 0, s.close_len);
+            // any bytes are a legal close-delimited body - also bytes that look like a chunked coding
+            let b = if ctx.chance(1, 4) { gen_coding(ctx).bytes } else { body_bytes(seed, 0, s.close_len) };
             (b.clone(), b, false)
         }
         _ => (Vec::new(), Vec::new(), false),
@@ -337,7 +338,8 @@ fn gen_c01_resp(ctx: &mut Ctx, method: &str, last: bool) -> RespPlan {
             2 => vec!["keep-alive", "close"],
             _ => vec![],
         };
-        let location = if (300..400).contains(&status) && ctx.chance(3, 4) { vec!["/next?x=1".to_string()] } else { vec![] };
+        // a Location header is not reserved for redirects (201 Created carries one too)
+        let location = if ((300..400).contains(&status) && ctx.chance(3, 4)) || ctx.chance(1, 8) { vec!["/next?x=1".to_string()] } else { vec![] };
         let spec = RespSpec { status, http11, cl, te, conn, generic_fields: if ctx.chance(1, 10) { ctx.range(0, 40) } else { ctx.range(0, 5) }, location, location_raw: vec![], close_len: if ctx.chance(1, 8) { ctx.range(0, 20_000) } else { ctx.range(0, 200) } };
         let plan = build_resp(ctx, method, &spec);
         match plan.truth {
